@@ -86,70 +86,15 @@ impl ConnectionState {
 //@item broker/src/broker.rs struct Broker
 
 impl Broker {
-    // Cross-structure invariant of the channel part of the broker state:
-    //  (1) every channel in the table satisfies its representation invariant and has at least one claimed end;
-    //  (2) a connection lists a cookie among its senders/receivers exactly when it owns that end of that channel.
-    spec fn chan_inv(&self) -> bool {
-        &&& forall|c: ChannelCookie| #![trigger self.channels@[c]]
-                self.channels@.contains_key(c) ==> self.channels@[c].inv() && self.channels@[c].live()
-        &&& forall|k: ConnectionId, c: ChannelCookie| #![trigger self.conns@[k].senders@.contains(c)]
-                self.conns@.contains_key(k) && self.conns@[k].senders@.contains(c)
-                    ==> self.channels@.contains_key(c) && self.channels@[c].sender.claimed_by(k.id())
-        &&& forall|k: ConnectionId, c: ChannelCookie| #![trigger self.conns@[k].receivers@.contains(c)]
-                self.conns@.contains_key(k) && self.conns@[k].receivers@.contains(c)
-                    ==> self.channels@.contains_key(c) && self.channels@[c].receiver.claimed_by(k.id())
-        &&& forall|k: ConnectionId, c: ChannelCookie| #![trigger self.conns@[k], self.channels@[c]]
-                self.conns@.contains_key(k) && self.channels@.contains_key(c)
-                    && self.channels@[c].sender.claimed_by(k.id()) ==> self.conns@[k].senders@.contains(c)
-        &&& forall|k: ConnectionId, c: ChannelCookie| #![trigger self.conns@[k], self.channels@[c]]
-                self.conns@.contains_key(k) && self.channels@.contains_key(c)
-                    && self.channels@[c].receiver.claimed_by(k.id()) ==> self.conns@[k].receivers@.contains(c)
-    }
-
-    // everything that is not channel state
-    spec fn same_rest(&self, o: &Self) -> bool {
-        &&& self.recv == o.recv &&& self.handle == o.handle &&& self.obj_uuids == o.obj_uuids
-        &&& self.objs == o.objs &&& self.svc_uuids == o.svc_uuids &&& self.svcs == o.svcs
-        &&& self.function_calls == o.function_calls &&& self.bus_listeners == o.bus_listeners
-    }
-
-    // remove_channel_end contains a closure capturing `&mut self` (Verus: unsupported), so its contract is ASSUMED.
-    // Preconditions are what every call site establishes; postconditions are what its body does to the tables.
-    //@fn broker/src/broker.rs Broker::remove_channel_end external
-        requires
-            old(self).chan_inv(),
-            old(self).channels@.contains_key(cookie) ==> {
-                let st = old(self).channels@[cookie].end_state(end);
-                &&& !(st is Closed)
-                // `owner` names the connection holding the end, or None when nobody holds it
-                &&& (owner is Some ==> st.claimed_by(owner->Some_0.id()))
-                &&& (owner is None ==> st is Unclaimed)
-            },
-        ensures
-            final(self).chan_inv(),
-            final(self).same_rest(old(self)),
-            final(self).conns@.dom() == old(self).conns@.dom(),
-            !old(self).channels@.contains_key(cookie) ==> final(self).channels@ == old(self).channels@
-                && final(self).conns@ == old(self).conns@,
-            old(self).channels@.contains_key(cookie) ==> {
-                let other = old(self).channels@[cookie].other_state(end);
-                let keep = other is Claimed && exists|k: ConnectionId| old(self).conns@.contains_key(k) && k.id() == other.owner_id();
-                &&& forall|c: ChannelCookie| c != cookie ==> final(self).channels@.contains_key(c) == old(self).channels@.contains_key(c)
-                &&& forall|c: ChannelCookie| c != cookie && old(self).channels@.contains_key(c) ==> final(self).channels@[c] == old(self).channels@[c]
-                &&& final(self).channels@.contains_key(cookie) == keep
-                &&& keep ==> {
-                        &&& final(self).channels@[cookie].end_state(end) is Closed
-                        &&& final(self).channels@[cookie].other_state(end) == other
-                    }
-            },
-    //@end
+    //@include _shared/chan_inv.rs
+    //@include _shared/remove_channel_end_contract.rs
 
     //@fn broker/src/broker.rs Broker::close_channel_end
         requires
             old(self).chan_inv(),
         ensures
             final(self).chan_inv(),
-            final(self).same_rest(old(self)),
+            final(self).chan_same_rest(old(self)),
             final(self).conns@.dom() == old(self).conns@.dom(),
             forall|c: ChannelCookie| c != req.cookie ==> final(self).channels@.contains_key(c) == old(self).channels@.contains_key(c),
             forall|c: ChannelCookie| c != req.cookie && old(self).channels@.contains_key(c) ==> final(self).channels@[c] == old(self).channels@[c],
@@ -177,7 +122,7 @@ impl Broker {
             old(self).chan_inv(),
         ensures
             final(self).chan_inv(),
-            final(self).same_rest(old(self)),
+            final(self).chan_same_rest(old(self)),
             final(self).conns@.dom() == old(self).conns@.dom(),
             // no other channel is touched
             forall|c: ChannelCookie| c != req.cookie ==> final(self).channels@.contains_key(c) == old(self).channels@.contains_key(c),
@@ -213,7 +158,7 @@ impl Broker {
             old(self).chan_inv(),
         ensures
             final(self).chan_inv(),
-            final(self).same_rest(old(self)),
+            final(self).chan_same_rest(old(self)),
             final(self).conns@.dom() == old(self).conns@.dom(),
             // no other channel is touched
             forall|c: ChannelCookie| c != req.cookie ==> final(self).channels@.contains_key(c) == old(self).channels@.contains_key(c),
